@@ -480,11 +480,25 @@ pub fn run(tier: &str, seed: u64, replay: Option<String>) -> i32 {
             damaged_ops.push(json!({"op":"convert_dir_damaged","file":f.rel,"edit":v.edit}));
         }
     }
+    // project texts the converter REJECTS (a definition removed, a reference renamed): a failed
+    // conversion must leave nothing behind for the next one on the same thread
+    let mut rejected_ops: Vec<Value> = vec![];
+    for f in files.iter().filter(|f| f.kind == FileKind::Ctehexml) {
+        let mut vs: Vec<_> = crate::diskfault::enumerate_c02(f)
+            .into_iter()
+            .filter(|v| matches!(v.edit, crate::diskfault::Edit::DefRemoved { .. } | crate::diskfault::Edit::DefRenamed { .. } | crate::diskfault::Edit::RefRenamed { .. }))
+            .collect();
+        rng.shuffle(&mut vs);
+        for v in vs.into_iter().take(if thorough { 12 } else { 3 }) {
+            rejected_ops.push(json!({"op":"convert_text","file":f.rel,"edit":v.edit}));
+        }
+    }
     conv_ops.extend(variant_ops.iter().cloned());
     let ind_ops = indicator_pool(thorough, &mut rng);
     let mut all_ops: Vec<Value> = conv_ops.clone();
     all_ops.extend(ind_ops.clone());
     all_ops.extend(damaged_ops.iter().cloned());
+    all_ops.extend(rejected_ops.iter().cloned());
 
     // ---- isolated references (fresh process, hash seed 0, one thread, nothing before)
     let refs = compute_refs(&all_ops, &scratch.dir);
@@ -518,6 +532,24 @@ pub fn run(tier: &str, seed: u64, replay: Option<String>) -> i32 {
     for op in &damaged_ops {
         for _ in 0..(if thorough { 4 } else { 2 }) {
             cases.push(Case { mode: "fresh_process", job: single_job(op), env: env_of(1 + rng.next_u64() % 1_000_000, None) });
+        }
+    }
+    // (rejected project, then a healthy conversion of the same and of another project) in one process
+    let healthy_texts: Vec<Value> = conv_ops.iter().filter(|o| o["op"] == "convert_text" && o["edit"].is_null() && base_refs.get(&op_key(o)).map(|(c, _)| c == "ok").unwrap_or(false)).cloned().collect();
+    let mut n_rejected = 0usize;
+    for r in rejected_ops.iter().filter(|o| base_refs.get(&op_key(o)).map(|(c, _)| c == "err").unwrap_or(false)) {
+        let same = json!({"op":"convert_text","file":r["file"]});
+        let mut seqs = vec![vec![r.clone(), same.clone()]];
+        if !healthy_texts.is_empty() {
+            seqs.push(vec![same.clone(), r.clone(), rng.pick(&healthy_texts).clone(), same.clone()]);
+        }
+        for ops in seqs {
+            cases.push(Case {
+                mode: "history",
+                job: json!({"t":"proc","threads":[ops],"sched":{"strategy":"rr","q":1000000},"sched_seed":0}),
+                env: env_of(0, None),
+            });
+            n_rejected += 1;
         }
     }
     // ordered pairs (original project, revised copy) and (revised copy, original) in one process
@@ -796,6 +828,7 @@ pub fn run(tier: &str, seed: u64, replay: Option<String>) -> i32 {
     extra.insert("cases_schedule".into(), json!(n_sched));
     extra.insert("cases_unrelated_definition".into(), json!(n_edited));
     extra.insert("reference_pairs".into(), json!(corpus::reference_pairs().len()));
+    extra.insert("histories_after_a_rejected_project".into(), json!(n_rejected));
     extra.insert("scheduler_steps".into(), json!(steps));
     extra.insert("ops_executed".into(), json!(ops_executed));
     extra.insert("distinct_interleavings".into(), json!(interleavings.len()));
